@@ -455,7 +455,7 @@ def history_stage(ck, good):
                         if m["cls"] != rs[j]["cls"] or any(kd != "defaulted" for _, kd, _, _ in compare_attrs(rs[j]["orig"], m["attrs"])):
                             why = ("different-message", f"comes back as a different message ({m['cls']})")
                 if why:
-                    return i, f"history/{cfg}/valid-after-{last_bad}/{why[0]}", \
+                    return i, f"history/{cfg}/valid-after-{'malformed' if last_bad != 'start' else 'valid-only'}/{why[0]}", \
                         f"{cfg}: a valid serialized message {why[1]} after a {last_bad} octet string was fed to a serializer object before"
             else:
                 if o["k"] == "exc" and o["cls"] != "ProtocolError":
